@@ -207,6 +207,60 @@ def replay_policy(c):
         shutil.rmtree(root, ignore_errors=True)
 
 
+def model_extract(rep):
+    wd = tlc.workdir('c13x')
+    cfg = tlc.write_cfg(os.path.join(wd, 'x.cfg'), invariants=['RowsKept', 'NothingInvented', 'NothingLost', 'TextKept'], constraints=['Export'])
+    res = tlc.run_tlc('MC_LoadExtract', cfg, workers=1, allow_violation=False)
+    rep.add_tlc(res, 'MC_LoadExtract: load(extract_missing_values=...) over 2-column tables of <=2 rows x value sets x source restriction x values given / from the schema')
+    seen, out = set(), []
+    for c in res.cases:
+        k = canon(c)
+        if k not in seen:
+            seen.add(k)
+            out.append(c)
+    return out
+
+
+def replay_extract(c):
+    """load(file, extract_missing_values=..., [override_schema=...], cast_strategy='schema'): cells and the extracted mapping as Load!ExtractDef says"""
+    import dataflows as DF
+    setup_repo()
+    root = tempfile.mkdtemp(prefix='c13x-', dir=tlc.WORK_ROOT)
+    try:
+        lines = ['a,b'] + [','.join(row) for row in c['rows']]
+        if any(ln == ',' for ln in lines[1:]):
+            return dict(ok=True, skipped='a line of empty cells only is a blank row for the reader')
+        data = ('\r\n'.join(lines) + '\r\n').encode()
+        opt = {}
+        if c['source']:
+            opt['source'] = c['source'][0] if len(c['rows']) % 2 else list(c['source'])      # a name or a list of names
+        kw = {}
+        if c['given']:
+            opt['values'] = list(c['values'])
+        else:
+            kw['override_schema'] = {'missingValues': list(c['values'])}
+        if len(c['values']) % 2 == 0:
+            opt['target'] = 'mv'
+        target = opt.get('target', 'missingValues')
+        try:
+            rows, fields, _ = load_file(data, root, infer_strategy='strings', cast_strategy='schema', strip=False,
+                                        extract_missing_values=(opt if opt else True), **kw)
+        except Exception as e:
+            return dict(ok=False, why='load raised %s: %s' % (type(e).__name__, str(getattr(e, 'cause', e))[:120]))
+        if [(f['name'], f['type']) for f in fields] != [('a', 'string'), ('b', 'string'), (target, 'object')]:
+            return dict(ok=False, why='schema differs', got=[(f['name'], f['type']) for f in fields])
+        want = []
+        for o in c['out']:
+            w = {n: (None if cell[0] == 'null' else cell[1]) for n, cell in zip(('a', 'b'), o['cells'])}
+            w[target] = {k: v for k, v in o['missing']}
+            want.append(w)
+        if rows != want:
+            return dict(ok=False, why='rows differ from Load!ExtractDef', got=rows, want=want)
+        return dict(ok=True)
+    finally:
+        shutil.rmtree(root, ignore_errors=True)
+
+
 def random_file(item):
     import random
     setup_repo()
@@ -384,6 +438,18 @@ def run():
             rep.violation(it, dict(why='load() result differs from the specification reader applied to the file',
                                    file=txt(x['bytes'])[:300], strip=x['strip'], limit=x['limit'],
                                    loaded=[[txt(c_) for c_ in r_] for r_ in x['rows']][:6]), category='random/differs')
+    xcases = model_extract(rep)
+    if t == 'quick':
+        r.shuffle(xcases)
+        xcases = xcases[:800]
+    for c, out in zip(xcases, pmap(replay_extract, xcases, chunksize=16)):
+        if '__harness_error__' in out:
+            raise tlc.MachineryError('harness error in extract_missing_values replay: ' + out['__harness_error__'])
+        rep.count(1, traces=1)
+        if not out.get('skipped'):
+            rep.mark_distinct(dict(extract=c))
+        if not out['ok']:
+            rep.violation(dict(extract=c), dict(case=c, **{k: v for k, v in out.items() if k != 'ok'}), category='extract_missing_values/%s' % out['why'][:40])
     for s in selection_cases():
         rep.count(1, traces=1)
         rep.mark_distinct(s)
@@ -397,6 +463,12 @@ def run():
 def replay(path):
     setup_repo()
     rec = json.load(open(path))
+    if isinstance(rec.get('case'), dict) and 'extract' in rec['case']:
+        out = replay_extract(rec['case']['extract'])
+        print(out)
+        if not out['ok']:
+            print('VIOLATION property=%s replay=%s' % (PROP, path))
+        return 0 if out['ok'] else 1
     c = rec['case']
     if 'variant' in c:
         out = replay_case(c)
